@@ -551,6 +551,7 @@ func TestC13(t *testing.T) {
 	r.Assume("movetime allowance 250 ms over the requested time (typical latency is a few ms), a late result is re-run once before it is reported")
 	r.Assume(fmt.Sprintf("node limit: overshoot of up to %d nodes allowed (quiescence sub-trees check the limit only when they return)", nodeOvershootAllowed))
 	r.Assume("budget clause: M = movestogo, or 15 when none is announced")
+	r.Assume("the depth clause is checked for ordinary (non-ponder) depth-limited searches; 'go ponder depth N' + ponderhit ends at once in this engine (noted in DESIGN.md 8.5, not taken up)")
 
 	// (a) budget function: drawn parameters
 	hx.Sub(r, "budget", r.N(60000, 400000), func(t *rapid.T) budgetCase {
